@@ -208,6 +208,10 @@ func C02(r *ck.Run) {
 					w.Close()
 				}
 				w = NewWorld("c02", cfg)
+				if cfg.Versioning {
+					// versioning-enabled bucket: an overwrite first preserves the current version
+					Must(w.F.Do(gw.Root, "PUT", "/"+w.Bucket, "versioning", nil, []byte("<VersioningConfiguration><Status>Enabled</Status></VersioningConfiguration>")), "enable versioning")
+				}
 				base = w.F.G.Snapshot(gw.SnapOpts{IgnoreTmp: true})
 			}
 			fresh()
@@ -268,6 +272,19 @@ func C02(r *ck.Run) {
 									}
 									enc, _ := gw.EncodeSigned(sg, gw.SplitChunks(b, []int{5}), "")
 									req.Body = enc
+								}
+								if ep.BigData && r.Thorough() {
+									// also deliver the last bytes of the request in reads of their own
+									raw := req.Raw()
+									if len(raw) > 4 {
+										fr := req.Clone()
+										fr.Frags = []int{len(raw) - 3, 1, 1}
+										fresp := w.F.G.Do(fr)
+										r.Add("evaluations", 1)
+										if fresp.Err == nil && fresp.Status < 400 {
+											r.Violation(ck.JoinSig(ep.ID, pv.Name, d.Name, fmt.Sprintf("status-%d", fresp.Status), "fragmented-delivery"), map[string]any{"endpoint": ep.ID, "defect": d.Name, "body_mode": mode, "request": fr.String(), "response": fresp.String()})
+										}
+									}
 								}
 								resp := w.F.G.Do(req)
 								r.Add("evaluations", 1)
